@@ -198,6 +198,16 @@ Section Semantics.
     | _, _ => OStuck
     end.
 
+  (* how the outcome of the body of a block of arity n entered with stack
+     [outer] becomes the outcome of the block *)
+  Definition close (n : nat) (outer : list val) (o : outcome) : outcome :=
+    match o with
+    | ONormal st' => leave n outer st'
+    | OBranch O st' => leave n outer st'
+    | OBranch (S l) st' => OBranch l st'
+    | other => other
+    end.
+
   (* ------------------------------------------------------------ executable *)
   Inductive res := Done (o : outcome) | OutOfFuel.
 
@@ -208,40 +218,30 @@ Section Semantics.
         match is with
         | [] => Done (ONormal st)
         | i :: rest =>
-            let continue (r : res) : res :=
-              match r with
-              | Done (ONormal st') => exec f rest st'
-              | other => other
+            let continue (o : outcome) : res :=
+              match o with
+              | ONormal st' => exec f rest st'
+              | other => Done other
               end in
             match i with
             | IBlock n body =>
-                let outer := s_stack st in
-                continue
-                  (match exec f body (set_stack st []) with
-                   | Done (ONormal st') => Done (leave n outer st')
-                   | Done (OBranch O st') => Done (leave n outer st')
-                   | Done (OBranch (S l) st') => Done (OBranch l st')
-                   | other => other
-                   end)
+                match exec f body (set_stack st []) with
+                | Done o1 => continue (close n (s_stack st) o1)
+                | OutOfFuel => OutOfFuel
+                end
             | ILoop n body =>
-                let outer := s_stack st in
-                continue
-                  (match exec f body (set_stack st []) with
-                   | Done (ONormal st') => Done (leave n outer st')
-                   | Done (OBranch O st') => exec f [ILoop n body] (set_stack st' outer)
-                   | Done (OBranch (S l) st') => Done (OBranch l st')
-                   | other => other
-                   end)
+                match exec f body (set_stack st []) with
+                | Done (OBranch O st') => exec f (ILoop n body :: rest) (set_stack st' (s_stack st))
+                | Done o1 => continue (close n (s_stack st) o1)
+                | OutOfFuel => OutOfFuel
+                end
             | IIf n th el =>
                 match s_stack st with
                 | V32 c :: s =>
-                    continue
-                      (match exec f (if c =? 0 then el else th) (set_stack st []) with
-                       | Done (ONormal st') => Done (leave n s st')
-                       | Done (OBranch O st') => Done (leave n s st')
-                       | Done (OBranch (S l) st') => Done (OBranch l st')
-                       | other => other
-                       end)
+                    match exec f (if c =? 0 then el else th) (set_stack st []) with
+                    | Done o1 => continue (close n s o1)
+                    | OutOfFuel => OutOfFuel
+                    end
                 | _ => Done OStuck
                 end
             | IBr l => Done (OBranch l st)
@@ -256,7 +256,7 @@ Section Semantics.
                 | _ => Done OStuck
                 end
             | IReturn => Done (OReturn st)
-            | _ => continue (Done (step_simple i st))
+            | _ => continue (step_simple i st)
             end
         end
     end.
@@ -266,15 +266,6 @@ Section Semantics.
     match i with
     | IBlock _ _ | ILoop _ _ | IIf _ _ _ | IBr _ | IBrIf _ | IBrTable _ _ | IReturn => true
     | _ => false
-    end.
-
-  (* how the outcome of a block body becomes the outcome of the block *)
-  Definition close (n : nat) (outer : list val) (o : outcome) : outcome :=
-    match o with
-    | ONormal st' => leave n outer st'
-    | OBranch O st' => leave n outer st'
-    | OBranch (S l) st' => OBranch l st'
-    | other => other
     end.
 
   Inductive bstep : list instr -> state -> outcome -> Prop :=
